@@ -77,6 +77,12 @@ def check_one(m_abs, trailer: bytes, shared_options: bool = False):
             out.append(("pack-not-repeatable:" + op, "packing the same message object twice gives different bytes"))
     except Exception as e:
         out.append((f"pack-second-time-exc:{op}:{norm_msg(e)}", f"second pack of the same object raised {type(e).__name__}: {e}"))
+    try:
+        other = av.build(m_abs).pack(opts)  # a second object built from the same field values
+        if other != data:
+            out.append(("equal-objects-pack-differently:" + op, "two message objects built from the same field values encode differently"))
+    except Exception as e:
+        out.append((f"pack-second-object-exc:{op}:{norm_msg(e)}", f"{type(e).__name__}: {e}"))
     reader = sl.asn1.ASN1Reader(bytes(data) + trailer)
     try:
         m2 = sl._messages.unpack_ldap_message(reader, opts if shared_options else sl._messages.PackingOptions())
